@@ -27,8 +27,8 @@ ENGINE = 'E2-bfs'
 RULE = (
     'BFS over histories of {new(slot,variant), call(slot,method,args; positional and keyword spellings), drop(slot), '
     'gc, flood(130 objects)}; probe class with weak_lru_cache(maxsize=2): 2 slots depth 7 and 3 slots depth 5 (quick: '
-    '6/4); real classes Transitions, Jumps, TrajectoryMetrics (and the Collective returned by Jumps.collective): 2 '
-    'slots depth 4 (thorough 5); state = (slot contents, calls made, cache_info of every cache)'
+    '6/4); real classes Transitions, Jumps, TrajectoryMetrics (and the Collective returned by Jumps.collective), call menu = '
+    'listed methods + every further method found memoised on the tree under test: 2 slots depth 4 (thorough 5; the split-based statistics of Jumps only in the thorough tier); state = (slot contents, calls made, cache_info of every cache)'
 )
 LEVEL_TEXT = (
     'Explicit-state model checking of the memoisation layer: every interleaving of creating, querying with '
@@ -135,9 +135,58 @@ def fast_conversion(transitions, *, minimal_residence=0):
 
 REAL_CALLS = {
     'T': [('matrix', (), {}), ('states_next', (), {}), ('states_prev', (), {})],
-    'J': [('matrix', (), {}), ('counter', (), {}), ('jump_diffusivity', (3,), {}), ('jump_diffusivity', (), {'dimensions': 1}), ('collective', (), {}), ('collective', (3.5,), {}), ('to_graph', (), {})],
+    'J': [('matrix', (), {}), ('counter', (), {}), ('jump_diffusivity', (3,), {}), ('jump_diffusivity', (), {'dimensions': 1}), ('collective', (), {}), ('collective', (3.5,), {}), ('to_graph', (), {}), ('to_graph', (), {'max_e_act': 'MID'}), ('to_graph', (), {'min_e_act': 'MID'})],
     'M': [('tracer_diffusivity', (), {'dimensions': 3}), ('tracer_diffusivity', (), {'dimensions': 1}), ('particle_density', (), {}), ('attempt_frequency', (), {}), ('tracer_conductivity', (), {'z_ion': 2, 'dimensions': 3}), ('haven_ratio', (), {})],
 }
+
+
+def discovered_calls(cls_key):
+    """Call menu of a real class = the fixed list above + every OTHER method of the class that is memoised with
+    weak_lru_cache on the tree under test (so caching added to a further method is explored as well). Argument
+    variants are derived from the signature: n_parts -> 1 and 2, dimensions -> 3, otherwise defaults only."""
+    import inspect
+
+    import gemdat.jumps
+    import gemdat.metrics
+    import gemdat.transitions
+
+    cls = {'T': gemdat.transitions.Transitions, 'J': gemdat.jumps.Jumps, 'M': gemdat.metrics.TrajectoryMetrics}[cls_key]
+    calls = list(REAL_CALLS[cls_key])
+    listed = {c[0] for c in calls}
+    for name, attr in sorted(vars(cls).items()):
+        if name in listed or impl.lru_of(attr) is None:
+            continue
+        try:
+            params = list(inspect.signature(attr).parameters.values())[1:]
+        except (TypeError, ValueError):
+            continue
+        if any(p.default is inspect.Parameter.empty and p.kind in (p.POSITIONAL_ONLY, p.POSITIONAL_OR_KEYWORD, p.KEYWORD_ONLY) and p.name not in ('n_parts', 'dimensions', 'z_ion') for p in params):
+            continue
+        names = [p.name for p in params]
+        if 'n_parts' in names:
+            if cls_key == 'J' and _TIER.get('tier') == 'quick':
+                continue  # split-based statistics of Jumps cost ~20 ms per call: thorough tier only
+            calls += [(name, (), {'n_parts': 1}), (name, (), {'n_parts': 2})]
+        elif 'dimensions' in names:
+            kw = {'dimensions': 3}
+            if 'z_ion' in names:
+                kw['z_ion'] = 1
+            calls.append((name, (), kw))
+        else:
+            calls.append((name, (), {}))
+    return calls
+
+
+_CALLS = {}
+_TIER = {}
+
+
+def calls_of(kind, cls):
+    if kind == 'probe':
+        return PROBE_CALLS
+    if cls not in _CALLS:
+        _CALLS[cls] = discovered_calls(cls)
+    return _CALLS[cls]
 
 
 def deep_equal(a, b):
@@ -222,15 +271,26 @@ def make_build(kind, nslots, cls=None):
                 w.slots[s], w.variant[s] = obj, v
             elif op == 'call':
                 _, s, ci = ev
-                name, args, kwargs = (PROBE_CALLS if kind == 'probe' else REAL_CALLS[cls])[ci]
+                name, args, kwargs = calls_of(kind, cls)[ci]
                 obj = w.slots[s]
                 meth = getattr(type(obj), name)
+                if 'MID' in kwargs.values():
+                    # a threshold that really rejects some edge: the middle of the activation energies
+                    acts = sorted(d['e_act'] for _, _, d in meth.__wrapped__(obj).edges(data=True))
+                    mid = (acts[0] + acts[-1]) / 2 if acts else 0.0
+                    kwargs = {k: (mid if v == 'MID' else v) for k, v in kwargs.items()}
                 try:
                     got = meth(obj, *args, **kwargs)
                     again = meth(obj, *args, **kwargs)
                     fresh = meth.__wrapped__(obj, *args, **kwargs)
                 except Exception as e:  # noqa: BLE001
-                    w.errors.append((f'cached-call-raises-{type(e).__name__}', f'{name}{args}{kwargs}: {e}', ei))
+                    try:
+                        meth.__wrapped__(obj, *args, **kwargs)
+                        w.errors.append((f'cached-call-raises-{type(e).__name__}', f'{name}{args}{kwargs}: {e} (the uncached call does not raise)', ei))
+                    except Exception as e2:  # noqa: BLE001  both raise: transparent
+                        if type(e2) is not type(e):
+                            w.errors.append(('cached-call-raises-differently', f'{name}{args}{kwargs}: {type(e).__name__} vs {type(e2).__name__}', ei))
+                    w.called.add((s, ci))
                     continue
                 if not deep_equal(got, fresh) or not deep_equal(again, fresh):
                     w.errors.append(('cached-result-differs-from-uncached', f'{type(obj).__name__}.{name}{args}{kwargs} variant {w.variant[s]}: cached={str(got)[:120]} uncached={str(fresh)[:120]}', ei))
@@ -252,7 +312,7 @@ def make_build(kind, nslots, cls=None):
                 gc.collect()
                 w.dead_checks += 1
                 if wr() is not None:
-                    names = [(PROBE_CALLS if kind == 'probe' else REAL_CALLS[cls])[c][0] for c in had_calls]
+                    names = [calls_of(kind, cls)[c][0] for c in had_calls]
                     which = 'collective' if 'collective' in names else 'other'
                     w.errors.append((f'cache-keeps-dropped-object-alive-{which}', f'{type(wr()).__name__} still alive after drop+gc; cached calls made on it: {names}', ei))
             elif op == 'gc':
@@ -261,7 +321,7 @@ def make_build(kind, nslots, cls=None):
                 objs = []
                 for k in range(130):
                     o = probe_class()(('flood', k)) if kind == 'probe' else new_real(cls, k % 2, k % 2, {})
-                    name, args, kwargs = (PROBE_CALLS if kind == 'probe' else REAL_CALLS[cls])[0]
+                    name, args, kwargs = calls_of(kind, cls)[0]
                     getattr(type(o), name)(o, *args, **kwargs)
                     objs.append(weakref.ref(o))
                     if k % 3:
@@ -279,7 +339,7 @@ def make_build(kind, nslots, cls=None):
 
 
 def make_enabled(kind, nslots, cls, with_flood):
-    ncalls = len(PROBE_CALLS if kind == 'probe' else REAL_CALLS[cls])
+    ncalls = len(calls_of(kind, cls))
 
     def enabled(w, hist):
         evs = []
@@ -301,14 +361,16 @@ def make_enabled(kind, nslots, cls, with_flood):
 
 def shards(tier, seed):
     out = []
+    _TIER['tier'] = tier
+    _CALLS.clear()
     d = DEPTHS[tier]
     for first in (('new', 0, 0), ('new', 0, 1)):
         out.append({'kind': 'probe', 'nslots': 2, 'depth': d['probe2'], 'root': list(first)})
         out.append({'kind': 'probe', 'nslots': 3, 'depth': d['probe3'], 'root': list(first)})
     for cls in ('T', 'J', 'M'):
         for first in (('new', 0, 0), ('new', 0, 1)):
-            for second in range(len(REAL_CALLS[cls]) + 1):
-                out.append({'kind': 'real', 'cls': cls, 'nslots': 2, 'depth': d['real'], 'root': list(first), 'second': second})
+            for second in range(len(calls_of('real', cls)) + 1):
+                out.append({'kind': 'real', 'cls': cls, 'nslots': 2, 'depth': d['real'], 'root': list(first), 'second': second, 'tier': tier})
     return out
 
 
@@ -316,12 +378,15 @@ def run_shard(shard) -> Result:
     res = Result()
     kind = shard['kind']
     cls = shard.get('cls')
+    if _TIER.get('tier') != shard.get('tier', _TIER.get('tier')):
+        _TIER['tier'] = shard.get('tier')
+        _CALLS.clear()
     build, canon = make_build(kind, shard['nslots'], cls)
     enabled = make_enabled(kind, shard['nslots'], cls, with_flood=True)
     root = (tuple(shard['root']),)
     depth = shard['depth'] - 1
     if kind == 'real':
-        ncalls = len(REAL_CALLS[cls])
+        ncalls = len(calls_of('real', cls))
         if shard['second'] < ncalls:
             root = root + (('call', 0, shard['second']),)
             depth -= 1
